@@ -88,6 +88,15 @@ fn check_list(l: &mut Law, reference: &[String], p: &Pointer) {
         let g = p.get(i).map(|t| t.decoded().into_owned());
         l.ck(g.as_ref() == reference.get(i), "get_i");
     }
+    // … and at the far end of the index type: no such token, and no arithmetic on the index that could overflow
+    for i in [usize::MAX, usize::MAX - 1, usize::MAX / 2 + 1, n + 1, n.wrapping_add(usize::MAX / 2)] {
+        if i >= n {
+            match guard(|| p.get(i).map(|t| t.decoded().into_owned())) {
+                None => l.fail("get_far_index_panics"),
+                Some(g) => l.ck(g.is_none(), "get_far_index_is_some"),
+            }
+        }
+    }
     {
         let mut comps = p.components();
         l.ck(matches!(comps.next(), Some(Component::Root)), "components_root_first");
